@@ -20,7 +20,9 @@ LEVEL_TEXT = (
     "(composition of the extracted plumbing maps); (R2) no function of samplers / schedulers / calibrator / losses writes "
     "module-level or class-level state, the batch loop carries no local across iterations, no class reachable from the "
     "pickled scheduler customises pickling, no attribute of such a class is a numpy *view* of another attribute (pickle "
-    "keeps identity but not view sharing), and session start/end of a scheduler writes session-scoped attributes only; "
+    "keeps identity but not view sharing), no branch in such a class compares a stored repository object with another one "
+    "by identity (`is`, or `==`/`in` on a class without `__eq__`: a restore hands back copies), the save path selects no "
+    "block as `a[-k:]` with k possibly 0, and session start/end of a scheduler writes session-scoped attributes only; "
     "(R3) the object dumped to the scheduler file is the calibrator's scheduler itself and every checkpoint file is "
     "rewritten on every path through save. Batch-for-batch equality of two runs is a runtime clause and is not decided."
 )
